@@ -679,7 +679,8 @@ class _DataOperationContextInjectorProbeNode(_DataOperationNode):
         }
 
         try:
-            assert hasattr(cls.processor, "_send_data")
+            # DataOperation subclasses expose input/output data type classmethods
+            assert hasattr(cls.processor, "input_data_type")
             component_metadata["wrapped_component"] = getattr(
                 cls.processor, "__name__", type(cls.processor).__name__
             )
